@@ -1,9 +1,8 @@
-(* Proofs/AllocLinear.v — C06: logical size of what the decoder builds vs. number of input bytes.
-   The unrestricted statement is FALSE in the model (and in the printed Go code): a map entry's key / value is decoded
-   bounded by the end of the BUFFER, then the outer loop resumes at the end of the ENTRY, so the same bytes are decoded
-   again; see [alloc_linear_false_K8] (quadratic, string key) and [alloc_exponential_example] (exponential, message
-   value). What is proved: the linear bound with K = 1 for schemas whose map fields have fixed-size (varint / fixed32 /
-   fixed64) keys and values — in particular for all schemas without map fields. *)
+(* Proofs/AllocLinear.v — C06: the logical size of what the decoder builds is linear in the number of input bytes
+   (K = 1, optimal). History: against the model of the code before /repo 8507b6c the statement was false — a map entry's
+   key / value was decoded bounded by the end of the BUFFER while the outer loop resumed at the end of the ENTRY, so the
+   same bytes were decoded again (quadratic with string keys, exponential with message M { map<int32,M> m = 1; }).
+   The inputs that showed this are kept below as Examples: they are now rejected. *)
 From CP Require Import Extra AllocSize BytesLemmas RuntimeProofs DecodeTotal.
 From Coq Require Import Lia ZifyN ZifyNat ZifyBool.
 Local Open Scope nat_scope.
@@ -20,15 +19,9 @@ Fixpoint cx_recs1 (n : nat) : list byte :=
   | S k => [x0a; x02; x0a; n2b (4 * N.of_nat k)] ++ cx_recs1 k
   end.
 
-Lemma alloc_linear_false_K8 :
-  exists sch discard mid init bs r, wf sch = true /\ length bs = 128 /\
-    pulsar_unmarshal sch discard mid init bs = Ok r /\
-    vsize (start_msg sch mid init) + (max_fields sch + 8) * length bs < vsize r.
-Proof.
-  exists cx_sch1, false, 0, VNil, (cx_recs1 32). eexists.
-  split; [vm_compute; reflexivity|]. split; [vm_compute; reflexivity|].
-  split; [vm_compute; reflexivity|]. apply Nat.ltb_lt. vm_compute. reflexivity.
-Qed.
+Example overrun_quadratic_rejected :
+  wf cx_sch1 = true /\ length (cx_recs1 32) = 128 /\ pulsar_unmarshal cx_sch1 false 0 VNil (cx_recs1 32) = Err.
+Proof. repeat split; vm_compute; reflexivity. Qed.
 
 (* message M { map<int32,M> m = 1; } *)
 Definition cx_sch2 : schema :=
@@ -41,14 +34,13 @@ Fixpoint cx_recs2 (n : nat) : list byte :=
   | S k => [x0a; x04; x08; n2b (N.of_nat k); x12; n2b (6 * N.of_nat k)] ++ cx_recs2 k
   end.
 
-Lemma alloc_exponential_example :
-  wf cx_sch2 = true /\
-  (forall n, n <= 12 -> length (cx_recs2 n) = 6 * n) /\
-  forall n, n <= 12 -> exists r, pulsar_unmarshal cx_sch2 false 0 VNil (cx_recs2 n) = Ok r /\ vsize r + 2 = 2 ^ (n + 2).
+Example overrun_exponential_rejected :
+  wf cx_sch2 = true /\ length (cx_recs2 12) = 72 /\
+  forall n, 2 <= n <= 20 -> pulsar_unmarshal cx_sch2 false 0 VNil (cx_recs2 n) = Err.
 Proof.
-  split; [vm_compute; reflexivity|]. split.
-  - intros n Hn. do 13 (destruct n as [|n]; [vm_compute; reflexivity|]). lia.
-  - intros n Hn. do 13 (destruct n as [|n]; [eexists; split; vm_compute; reflexivity|]). lia.
+  split; [vm_compute; reflexivity|]. split; [vm_compute; reflexivity|].
+  intros n [Hlo Hhi]. do 2 (destruct n as [|n]; [lia|]).
+  do 19 (destruct n as [|n]; [vm_compute; reflexivity|]). lia.
 Qed.
 
 (* ------------------------------------------------------------------ sizes: basic facts *)
@@ -185,23 +177,16 @@ Proof.
 Qed.
 
 (* ------------------------------------------------------------------ the potential argument *)
-Definition field_map_fixed (f : field) : bool :=
-  match f_shape f with
-  | MapOf kk => negb (N.eqb (kind_wt kk) WT_BYTES) &&
-                match f_ty f with TScalar k => negb (N.eqb (kind_wt k) WT_BYTES) | TMsg _ => false end
-  | _ => true
-  end.
-(* every map field has a varint / fixed32 / fixed64 key and value (no string, bytes or message) *)
-Definition maps_fixed (sch : schema) : bool := forallb (fun md => forallb field_map_fixed (m_fields md)) sch.
-
 Definition tbase (F : nat) (tg : val) : nat := match tg with VMsg _ _ => vsize tg | _ => F + 1 end.
 Definition child_lin (F c : nat) (child : child_t) : Prop :=
   forall m tg p v, child m tg p = Ok v -> vsize v <= tbase F tg + c * length p.
 Definition ibase (F c : nat) (t : ftype) (tg : val) : nat :=
   match t with TScalar _ => c | TMsg _ => tbase F tg end.
 
+Lemma tbase_le F c tg : F + 1 <= 2 * c -> tbase F tg <= vsize tg + 2 * c.
+Proof. intros H. unfold tbase. destruct tg; lia. Qed.
 Lemma ibase_le F c t tg : F + 1 <= 2 * c -> ibase F c t tg <= vsize tg + 2 * c.
-Proof. intros H. unfold ibase, tbase. destruct t; destruct tg; lia. Qed.
+Proof. intros H. unfold ibase. destruct t; [lia|]. apply tbase_le. exact H. Qed.
 Lemma ibase_nonmsg F c t tg : F + 1 <= 2 * c -> (forall s u, tg <> VMsg s u) -> ibase F c t tg <= 2 * c.
 Proof. intros H Hn. unfold ibase, tbase. destruct t; [lia|]. destruct tg; try lia. exfalso. eapply Hn. reflexivity. Qed.
 Lemma member_base F c t s : F + 1 <= 2 * c ->
@@ -215,6 +200,12 @@ Qed.
 Lemma scale c a r n : 1 <= c -> a + r <= n -> a + c * r <= c * n.
 Proof. intros. nia. Qed.
 Lemma scale_lt c r n : r < n -> c * r + c <= c * n.
+Proof. intros. nia. Qed.
+Lemma pot_step c K1 u K0 a : 1 <= c -> K1 + u = K0 -> a <= u -> a + c * K1 <= c * K0.
+Proof. intros. nia. Qed.
+Lemma pot_step_msg c K1 u K0 P : K1 + u = K0 -> P + 2 <= u -> c * P + 2 * c + c * K1 <= c * K0.
+Proof. intros. nia. Qed.
+Lemma mul_split c a b n : a + b = n -> c * a + c * b = c * n.
 Proof. intros. nia. Qed.
 
 Lemma dec_item_lin F c child t tg rest v r : child_lin F c child -> 1 <= c ->
@@ -240,31 +231,84 @@ Proof.
   pose proof (list_append_size acc v0). pose proof (scale c _ _ _ H1 Es). lia.
 Qed.
 
-Lemma entry_loop_fixed child fuel kk kv :
-  N.eqb (kind_wt kk) WT_BYTES = false -> N.eqb (kind_wt kv) WT_BYTES = false ->
-  forall k key value rest k' v', vsize key = 1 -> vsize value = 1 ->
-  entry_loop child fuel kk (TScalar kv) k key value rest = Ok (k', v') -> vsize k' = 1 /\ vsize v' = 1.
+Lemma skip_loop_nonneg fuel : forall rest idx depth n, skip_loop fuel rest idx depth = Ok n -> (0 <= n)%Z.
 Proof.
-  intros Hkk Hkv. induction fuel as [|f IH]; intros k key value rest k' v' Hk Hv; cbn [entry_loop]; [discriminate|].
-  destruct (k <=? 0)%Z; [intro E; injection E as <- <-; split; assumption|].
-  destruct (dec_varint rest) as [[[raw n] rest1]|]; [|discriminate].
+  induction fuel as [|f IH]; intros rest idx depth n; cbn [skip_loop]; [discriminate|].
+  destruct rest as [|b t]; [discriminate|].
+  destruct (skip_step (b :: t) idx depth) as [|r i d]; [discriminate|].
+  destruct (Z.ltb_spec i 0) as [|Hi]; [discriminate|].
+  destruct (N.eqb d 0); [intro E; injection E as <-; exact Hi|]. apply IH.
+Qed.
+Lemma Skip_nonneg bs n : Skip bs = Ok n -> (0 <= n)%Z.
+Proof. apply skip_loop_nonneg. Qed.
+
+Lemma zskipn_len_exact {A} k (l : list A) :
+  (0 <= k <= Z.of_nat (length l))%Z -> length (zskipn k l) + Z.to_nat k = length l.
+Proof.
+  intros Hk. unfold zskipn. destruct (Z.leb_spec k 0); [lia|].
+  destruct (Z.leb_spec (Z.of_nat (length l)) k); [cbn [length]; lia|].
+  rewrite skipn_length. lia.
+Qed.
+
+(* a map entry: the key and the value it ends with cost at most what they started with plus c per byte of the entry
+   (every subfield ends inside the entry: [0 <= k] is an invariant of the loop) *)
+Lemma entry_loop_lin F c child fuel kk t : child_lin F c child -> 1 <= c -> F + 1 <= 2 * c ->
+  forall k key value rest k' v', (0 <= k)%Z ->
+  entry_loop child fuel kk t k key value rest = Ok (k', v') ->
+  vsize k' + vsize v' <= vsize key + vsize value + c * Z.to_nat k.
+Proof.
+  intros Hc H1 HF. induction fuel as [|f IH]; intros k key value rest k' v' Hk; cbn [entry_loop]; [discriminate|].
+  destruct (k <=? 0)%Z; [intro E; injection E as <- <-; lia|].
+  destruct (dec_varint rest) as [[[raw n] rest1]|] eqn:Ed; [|discriminate].
+  apply dec_varint_shorter in Ed.
   destruct (s32 (u64 raw / 8) =? 1)%Z.
-  { destruct (dec_scalar kk rest1) as [[v0 r0]|] eqn:Es; [|discriminate].
-    apply IH; [|exact Hv]. exact (dec_scalar_size1 kk _ _ _ Hkk Es). }
+  { destruct (dec_scalar kk rest1) as [[v r]|] eqn:Es; [|discriminate].
+    apply dec_scalar_size in Es.
+    destruct (Z.ltb_spec (k - (Z.of_nat (length rest) - Z.of_nat (length r))) 0) as [|Hin]; [discriminate|].
+    intro E. apply IH in E; [|exact Hin].
+    pose proof (pot_step c (Z.to_nat (k - (Z.of_nat (length rest) - Z.of_nat (length r))))
+                         (length rest - length r) (Z.to_nat k) (vsize v) H1 ltac:(lia) ltac:(lia)).
+    pose proof (vsize_pos key). lia. }
   destruct (s32 (u64 raw / 8) =? 2)%Z.
-  { unfold dec_item. destruct (dec_scalar kv rest1) as [[v0 r0]|] eqn:Es; [|discriminate].
-    apply IH; [exact Hk|]. exact (dec_scalar_size1 kv _ _ _ Hkv Es). }
-  destruct (Skip rest) as [skippy| | |]; try discriminate.
-  destruct (k <? skippy)%Z; [discriminate|].
-  apply IH; assumption.
+  { destruct t as [kd|m0].
+    - destruct (dec_scalar kd rest1) as [[v r]|] eqn:Es; [|discriminate].
+      apply dec_scalar_size in Es.
+      destruct (Z.ltb_spec (k - (Z.of_nat (length rest) - Z.of_nat (length r))) 0) as [|Hin]; [discriminate|].
+      intro E. apply IH in E; [|exact Hin].
+      pose proof (pot_step c (Z.to_nat (k - (Z.of_nat (length rest) - Z.of_nat (length r))))
+                           (length rest - length r) (Z.to_nat k) (vsize v) H1 ltac:(lia) ltac:(lia)).
+      pose proof (vsize_pos value). lia.
+    - destruct (take_len rest1) as [[p0 r]|] eqn:Et; [|discriminate].
+      apply take_len_shorter in Et.
+      destruct (Z.ltb_spec (k - (Z.of_nat (length rest) - Z.of_nat (length r))) 0) as [|Hin]; [discriminate|].
+      destruct (child m0 value p0) as [v| | |] eqn:Ec; try discriminate.
+      apply Hc in Ec. intro E. apply IH in E; [|exact Hin].
+      pose proof (pot_step_msg c (Z.to_nat (k - (Z.of_nat (length rest) - Z.of_nat (length r))))
+                               (length rest - length r) (Z.to_nat k) (length p0) ltac:(lia) ltac:(lia)).
+      pose proof (tbase_le F c value HF). lia. }
+  destruct (Skip rest) as [skippy| | |] eqn:Esk; try discriminate.
+  apply Skip_nonneg in Esk.
+  destruct (Z.ltb_spec k skippy) as [|Hin]; [discriminate|].
+  intro E. apply IH in E; [|lia].
+  pose proof (Nat.mul_le_mono_l (Z.to_nat (k - skippy)) (Z.to_nat k) c ltac:(lia)). lia.
+Qed.
+
+Lemma map_value_init_size F sch t :
+  (forall m md, get_msg sch m = Some md -> length (m_fields md) <= F) ->
+  vsize (map_value_init (get_msg sch) t) <= F + 1.
+Proof.
+  intro HF. unfold map_value_init. destruct t as [k|m]; [rewrite zero_scalar_size; lia|].
+  destruct (get_msg sch m) as [md|] eqn:E; [|cbn [vsize]; lia].
+  rewrite empty_msg_size. specialize (HF _ _ E). lia.
 Qed.
 
 Lemma field_item_lin F c sch child md idx f wt msg rest1 msg' r :
-  child_lin F c child -> 2 <= c -> F + 1 <= 2 * c -> field_map_fixed f = true ->
+  child_lin F c child -> F + 3 <= 2 * c ->
+  (forall m md0, get_msg sch m = Some md0 -> length (m_fields md0) <= F) ->
   field_item sch child md idx f wt msg rest1 = Ok (msg', r) ->
   vsize msg' + c * length r <= vsize msg + c * length rest1 + c.
 Proof.
-  intros Hc H2 HF Hfix. assert (H1 : 1 <= c) by lia.
+  intros Hc H3 Hsch. assert (H1 : 1 <= c) by lia. assert (HF : F + 1 <= 2 * c) by lia.
   unfold field_item. set (s := nth idx (slots_of msg) VNil).
   destruct (f_shape f) as [|pk|oi|kk] eqn:Esh.
   - (* Singular *)
@@ -272,7 +316,7 @@ Proof.
     destruct (dec_item child (f_ty f) s rest1) as [[v r0]| | |] eqn:Ei; try discriminate.
     intro H. injection H as <- <-.
     apply (dec_item_lin F c) in Ei; [|exact Hc|exact H1].
-    pose proof (ibase_le F c (f_ty f) s HF). pose proof (put_size msg idx v). fold s in H0. lia.
+    pose proof (ibase_le F c (f_ty f) s HF). pose proof (put_size msg idx v) as Hp. fold s in Hp. lia.
   - (* Rep *)
     assert (Happ : forall v (r0 : list byte), vsize v + c * length r0 <= c * length rest1 + c ->
                    vsize (VMsg (set_nth (slots_of msg) idx (list_append s v)) (unk_of msg)) + c * length r0
@@ -311,38 +355,37 @@ Proof.
     intro H. injection H as <- <-.
     apply (dec_item_lin F c) in Ei; [|exact Hc|exact H1].
     pose proof (member_base F c (f_ty f) s HF) as Hb. fold tg in Hb.
-    pose proof (put_clear_size (m_fields md) msg oi idx (VSome v)) as Hp. fold s in Hp. change (vsize (VSome v)) with (S (vsize v)) in Hp. lia.
+    pose proof (put_clear_size (m_fields md) msg oi idx (VSome v)) as Hp. fold s in Hp.
+    change (vsize (VSome v)) with (S (vsize v)) in Hp. lia.
   - (* MapOf *)
-    unfold field_map_fixed in Hfix. rewrite Esh in Hfix. apply andb_prop in Hfix. destruct Hfix as [Hkk Hkv].
-    apply negb_true_iff in Hkk.
-    destruct (f_ty f) as [kv|m0] eqn:Ety; [|discriminate Hkv]. apply negb_true_iff in Hkv.
     destruct (N.eqb wt WT_BYTES); [|discriminate].
     destruct (dec_varint rest1) as [[[raw n] rest2]|] eqn:Ed; [|discriminate].
     apply dec_varint_shorter in Ed.
-    destruct (s64 raw <? 0)%Z; [discriminate|].
-    destruct (Z.of_nat (length rest2) <? s64 raw)%Z; [discriminate|].
+    destruct (Z.ltb_spec (s64 raw) 0) as [|Hlen0]; [discriminate|].
+    destruct (Z.ltb_spec (Z.of_nat (length rest2)) (s64 raw)) as [|Hlen1]; [discriminate|].
     set (kvs := match s with VMap kvs => kvs | _ => [] end).
     match goal with |- context [entry_loop ?c0 ?fu ?a1 ?a2 ?a3 ?a4 ?a5 ?a6] =>
       destruct (entry_loop c0 fu a1 a2 a3 a4 a5 a6) as [[k0 v0]| | |] eqn:Ee end; try discriminate.
-    apply (entry_loop_fixed _ _ _ _ Hkk Hkv) in Ee; [|apply zero_scalar_size|apply zero_scalar_size].
-    destruct Ee as [Hk0 Hv0].
+    apply (entry_loop_lin F c) in Ee; [|exact Hc|exact H1|exact HF|exact Hlen0].
+    rewrite zero_scalar_size in Ee. pose proof (map_value_init_size F sch (f_ty f) Hsch) as Hmv.
     intro H. injection H as <- <-.
     pose proof (put_size msg idx (VMap (map_set kvs k0 v0))) as Hp. fold s in Hp. rewrite vsize_map in Hp.
-    pose proof (map_set_sum kvs k0 v0) as Hm. rewrite Hk0, Hv0 in Hm.
+    pose proof (map_set_sum kvs k0 v0) as Hm.
     assert (Hs : S (msum kvs) <= vsize s).
     { subst kvs. pose proof (vsize_pos s). destruct s; try (unfold msum; cbn [map nsumn fold_right]; lia).
       rewrite vsize_map. lia. }
-    pose proof (zskipn_length (s64 raw) rest2) as Hz.
-    assert (Hlt : length (zskipn (s64 raw) rest2) < length rest1) by lia.
-    pose proof (scale_lt c _ _ Hlt). lia.
+    pose proof (zskipn_len_exact (s64 raw) rest2 ltac:(lia)) as Hz.
+    pose proof (mul_split c _ _ _ Hz) as Hz'.
+    pose proof (scale_lt c _ _ Ed). lia.
 Qed.
 
 Lemma msg_loop_lin F sch discard child md :
-  child_lin F (S F) child -> length (m_fields md) <= F -> forallb field_map_fixed (m_fields md) = true ->
+  child_lin F (S F) child -> length (m_fields md) <= F ->
+  (forall m md0, get_msg sch m = Some md0 -> length (m_fields md0) <= F) ->
   forall fuel msg rest m, msg_loop sch discard child md fuel msg rest = Ok m ->
   vsize m <= vsize msg + S F * length rest.
 Proof.
-  intros Hc HF Hfix. induction fuel as [|fu IH]; intros msg rest m; cbn [msg_loop]; [discriminate|].
+  intros Hc HF Hsch. induction fuel as [|fu IH]; intros msg rest m; cbn [msg_loop]; [discriminate|].
   destruct rest as [|b0 t0] eqn:Er; [intro E; injection E as <-; lia|]. rewrite <- Er. clear Er.
   destruct (dec_varint rest) as [[[raw n] rest1]|] eqn:Ed; [|discriminate].
   apply dec_varint_shorter in Ed.
@@ -352,9 +395,8 @@ Proof.
   - apply find_field_in in Ef. destruct Ef as [_ Ef].
     assert (HF1 : 1 <= F).
     { destruct (m_fields md); [destruct (idx - 0); discriminate Ef|]. cbn [length] in HF. lia. }
-    apply nth_error_In in Ef. rewrite forallb_forall in Hfix. specialize (Hfix _ Ef).
     destruct (field_item sch child md idx f (u64 raw mod 8)%N msg rest1) as [[msg' rest']| | |] eqn:Ei; try discriminate.
-    apply (field_item_lin F (S F)) in Ei; [|exact Hc|lia|lia|exact Hfix].
+    apply (field_item_lin F (S F)) in Ei; [|exact Hc|lia|exact Hsch].
     intro E. apply IH in E. pose proof (scale_lt (S F) _ _ Ed). lia.
   - destruct (Skip rest) as [skippy| | |]; try discriminate.
     destruct (Z.of_nat (length rest) <? skippy)%Z; [discriminate|].
@@ -366,20 +408,23 @@ Proof.
     rewrite vsize_msg, app_length in E. pose proof (vsize_norm msg). lia.
 Qed.
 
+Lemma max_fields_get sch m md : get_msg sch m = Some md -> length (m_fields md) <= max_fields sch.
+Proof. intro H. apply max_fields_ge. eapply nth_error_In. exact H. Qed.
+
 Lemma start_msg_base sch mid tg : vsize (start_msg sch mid tg) <= tbase (max_fields sch) tg.
 Proof.
   unfold start_msg, tbase.
   assert (H : vsize (match get_msg sch mid with Some md => empty_msg md | None => VNil end) <= max_fields sch + 1).
   { destruct (get_msg sch mid) as [md|] eqn:Hg; [|cbn [vsize]; lia].
-    rewrite empty_msg_size. apply nth_error_In in Hg. apply max_fields_ge in Hg. lia. }
+    rewrite empty_msg_size. apply max_fields_get in Hg. lia. }
   destruct tg; try exact H. lia.
 Qed.
 
-Lemma unmarshal_at_lin sch discard : maps_fixed sch = true -> forall fuel depth mid tg bs r,
+Lemma unmarshal_at_lin sch discard : forall fuel depth mid tg bs r,
   unmarshal_at sch discard fuel depth mid tg bs = Ok r ->
   vsize r <= vsize (start_msg sch mid tg) + (max_fields sch + 1) * length bs.
 Proof.
-  intro Hfix. induction fuel as [|f IH]; intros depth mid tg bs r; cbn [unmarshal_at]; [discriminate|].
+  induction fuel as [|f IH]; intros depth mid tg bs r; cbn [unmarshal_at]; [discriminate|].
   destruct (depth <=? 0)%Z; [discriminate|].
   destruct (get_msg sch mid) as [md|] eqn:Hg; [|discriminate].
   intro H. replace (max_fields sch + 1) with (S (max_fields sch)) by lia.
@@ -387,30 +432,30 @@ Proof.
   - replace (start_msg sch mid tg) with (match tg with VMsg _ _ => tg | _ => empty_msg md end);
       [exact H|]. unfold start_msg. rewrite Hg. destruct tg; reflexivity.
   - intros m0 tg0 p v Hc. apply IH in Hc. pose proof (start_msg_base sch m0 tg0). lia.
-  - apply max_fields_ge. eapply nth_error_In. exact Hg.
-  - unfold maps_fixed in Hfix. rewrite forallb_forall in Hfix. apply Hfix. eapply nth_error_In. exact Hg.
+  - eapply max_fields_get. exact Hg.
+  - intros m0 md0. apply max_fields_get.
 Qed.
 
-(* ------------------------------------------------------------------ what holds: K = 1 when no map entry can over-read *)
-Lemma alloc_linear_partial sch discard mid init bs r : wf sch = true -> maps_fixed sch = true ->
+(* ------------------------------------------------------------------ targets: K = 1 *)
+Lemma alloc_linear sch discard mid init bs r : wf sch = true ->
   pulsar_unmarshal sch discard mid init bs = Ok r ->
   (vsize r <= vsize (start_msg sch mid init) + (max_fields sch + 1) * length bs)%nat.
-Proof. intros _ Hfix H. unfold pulsar_unmarshal in H. eapply unmarshal_at_lin; eassumption. Qed.
+Proof. intros _ H. unfold pulsar_unmarshal in H. eapply unmarshal_at_lin; eassumption. Qed.
 
-Lemma alloc_linear_fresh_partial sch discard mid bs r : wf sch = true -> maps_fixed sch = true -> (mid < length sch)%nat ->
+Lemma alloc_linear_fresh sch discard mid bs r : wf sch = true -> (mid < length sch)%nat ->
   pulsar_unmarshal sch discard mid VNil bs = Ok r -> (vsize r <= (max_fields sch + 2) + (max_fields sch + 1) * length bs)%nat.
 Proof.
-  intros Hwf Hfix _ H. pose proof (alloc_linear_partial _ _ _ _ _ _ Hwf Hfix H) as Hl.
+  intros Hwf _ H. pose proof (alloc_linear _ _ _ _ _ _ Hwf H) as Hl.
   pose proof (start_msg_base sch mid VNil) as Hb. unfold tbase in Hb. lia.
 Qed.
 
-(* K = 1 is optimal for this class: message B { map<int32,int32> m = 1; } on the two bytes 0a 00 *)
+(* K = 1 is optimal: message B { map<int32,int32> m = 1; } on the two bytes 0a 00 *)
 Lemma alloc_linear_K0_false :
-  exists sch bs r, wf sch = true /\ maps_fixed sch = true /\ pulsar_unmarshal sch false 0 VNil bs = Ok r /\
+  exists sch bs r, wf sch = true /\ pulsar_unmarshal sch false 0 VNil bs = Ok r /\
     vsize (start_msg sch 0 VNil) + (max_fields sch + 0) * length bs < vsize r.
 Proof.
   exists [ {| m_fields := [ {| f_num := 1; f_ty := TScalar KInt32; f_shape := MapOf KInt32 |} ]; m_oneofs := 0; m_impl := Pulsar |} ],
          [x0a; x00]. eexists.
-  split; [vm_compute; reflexivity|]. split; [vm_compute; reflexivity|].
+  split; [vm_compute; reflexivity|].
   split; [vm_compute; reflexivity|]. apply Nat.ltb_lt. vm_compute. reflexivity.
 Qed.
